@@ -206,6 +206,11 @@ def generate_dependent_dispatch(tup, handlers, next_call, slf, name, err, nerr):
     tup = to_dict(tup)
     handlers = [(h, to_dict(types)) for h, types in handlers]
     ndb = NameDatabase(default_name="INJECT")
+    for k in tup:
+        if not isinstance(k, int):
+            # Keyword arguments are variables of the generated function under
+            # their own name: no injected object may take that name
+            ndb.register(k)
     conjs = []
 
     exclusive = False
